@@ -296,3 +296,54 @@ func replaceCall(p *packages.Package, call *ast.CallExpr, with ast.Expr) {
 		}
 	}
 }
+
+// readOnlyIn: the variable is never assigned, incremented or has its address taken in the body.
+func readOnlyIn(body ast.Node, v types.Object, info *types.Info) bool {
+	ro := true
+	is := func(e ast.Expr) bool {
+		id, ok := ast.Unparen(e).(*ast.Ident)
+		return ok && (info.Uses[id] == v || info.Defs[id] == v)
+	}
+	ast.Inspect(body, func(n ast.Node) bool {
+		switch x := n.(type) {
+		case *ast.AssignStmt:
+			for _, l := range x.Lhs {
+				if is(l) {
+					ro = false
+				}
+			}
+		case *ast.IncDecStmt:
+			if is(x.X) {
+				ro = false
+			}
+		case *ast.UnaryExpr:
+			if x.Op == token.AND && is(x.X) {
+				ro = false
+			}
+		case *ast.RangeStmt:
+			if x.Key != nil && is(x.Key) || x.Value != nil && is(x.Value) {
+				ro = false
+			}
+		}
+		return true
+	})
+	return ro
+}
+
+// declaresName: something inside the body is declared with this name.
+func declaresName(body ast.Node, name string, info *types.Info) bool {
+	found := false
+	ast.Inspect(body, func(n ast.Node) bool {
+		if id, ok := n.(*ast.Ident); ok && id.Name == name && info.Defs[id] != nil {
+			found = true
+		}
+		return true
+	})
+	// the implicit variables of type switch clauses
+	for nd, o := range info.Implicits {
+		if o.Name() == name && nd.Pos() >= body.Pos() && nd.End() <= body.End() {
+			found = true
+		}
+	}
+	return found
+}
